@@ -306,7 +306,10 @@ class DescriptorTransaction(_TransactionBase):
             #  additional check for states in self.context_states is not needed.
             #  If this assumption is wrong, that functionality must be added!)
 
-            for tr_item in self.descriptor_updates.values():
+            # Process deletions last: a descriptor that is created or updated in this transaction can be part of a
+            # subtree that is deleted in the same transaction, independent of the order of the calls.
+            tr_items = sorted(self.descriptor_updates.values(), key=lambda item: item.new is None)
+            for tr_item in tr_items:
                 orig_descriptor, new_descriptor = tr_item.old, tr_item.new
                 if orig_descriptor is None:
                     # this is a create operation
@@ -343,6 +346,16 @@ class DescriptorTransaction(_TransactionBase):
                     orig_descriptor.update_from_other_container(new_descriptor)
                     self._update_corresponding_state(orig_descriptor)
                     self._mdib.descriptions.update_object_no_lock(orig_descriptor)
+            # states of descriptors that were deleted in this transaction must not be (re-)added to mdib
+            deleted_handles = {descr.Handle for descr in proc.descr_deleted}
+            if deleted_handles:
+                for updates_dict in (self.alert_state_updates, self.metric_state_updates, self.context_state_updates,
+                                     self.component_state_updates, self.operational_state_updates,
+                                     self.rt_sample_state_updates):
+                    for key, item in list(updates_dict.items()):
+                        state = item.new if item.new is not None else item.old
+                        if state.DescriptorHandle in deleted_handles:
+                            del updates_dict[key]
             for updates_dict, dest_list in ((self.alert_state_updates, proc.alert_updates),
                                             (self.metric_state_updates, proc.metric_updates),
                                             (self.context_state_updates, proc.ctxt_updates),
